@@ -355,8 +355,11 @@ def gen_q(kind, st, en, prop, tiers, cap, cost, extra_name=""):
         "c03_two_iter": ("inductive step", "update_by_iter over two bytes from ANY invariant state [%d,%d)" % (st, en)),
         "c03_two_addslice": ("inductive step", "+= &[u8] of two bytes from ANY invariant state [%d,%d)" % (st, en)),
         "c03_two_addarray": ("inductive step", "+= &[u8; 2] from ANY invariant state [%d,%d)" % (st, en)),
-        "c03_one_item": ("inductive step", "one-item chunks in all five forms == update_by_byte bit for bit, from ANY invariant "
-                         "state [%d,%d)" % (st, en)),
+        "c03_one_slice": ("inductive step", "update(&[c]) == update_by_byte(c) bit for bit, from ANY invariant state [%d,%d)" % (st, en)),
+        "c03_one_iter": ("inductive step", "update_by_iter(once(c)) == update_by_byte(c) bit for bit, from ANY invariant state [%d,%d)" % (st, en)),
+        "c03_one_addslice": ("inductive step", "+= &[c][..] == update_by_byte(c) bit for bit, from ANY invariant state [%d,%d)" % (st, en)),
+        "c03_one_addarray": ("inductive step", "+= &[c; 1] == update_by_byte(c) bit for bit, from ANY invariant state [%d,%d)" % (st, en)),
+        "c03_one_addbyte": ("inductive step", "+= c == update_by_byte(c) bit for bit, from ANY invariant state [%d,%d)" % (st, en)),
     }
     shape, bound = shapes[kind]
     enc = list(GEN_ENC)
@@ -379,7 +382,9 @@ GEN_CALL = {
     "c01_step": "step_byte(%d, %d)", "c01_digest_trunc": "digest_trunc(%d, %d)", "c01_digest_long": "digest_long(%d, %d)",
     "c03_two_slice": "step_two(%d, %d, 0)", "c03_two_iter": "step_two(%d, %d, 1)",
     "c03_two_addslice": "step_two(%d, %d, 2)", "c03_two_addarray": "step_two(%d, %d, 3)",
-    "c03_one_item": "step_one_item(%d, %d)",
+    "c03_one_slice": "step_one_item(%d, %d, 0)", "c03_one_iter": "step_one_item(%d, %d, 1)",
+    "c03_one_addslice": "step_one_item(%d, %d, 2)", "c03_one_addarray": "step_one_item(%d, %d, 3)",
+    "c03_one_addbyte": "step_one_item(%d, %d, 4)",
 }
 
 # Cost grows steeply with the width of the active range (number of symbolic contexts): width 5 ~ 350 s,
@@ -390,11 +395,15 @@ GEN_MAX_WIDTH = int(_os.environ.get("VERIF_GEN_MAXWIDTH", "8"))
 for (st, en) in ALL_PAIRS:
     tiers = ("quick", "thorough") if en - st <= GEN_MAX_WIDTH else ()
     gen_q("c01_step", st, en, "C01", tiers, (900, 2400), 100 + 60 * (en - st))
-    gen_q("c01_digest_trunc", st, en, "C01", tiers, (900, 2400), 200 + 60 * (en - st))
-    gen_q("c01_digest_long", st, en, "C01", tiers, (900, 2400), 200 + 60 * (en - st))
+    # width-1 ranges above level 0 cannot be END states (their only level would have to hold >= 32 pieces and none):
+    # the digest obligations would be vacuous there, so they are not generated
+    if en - st >= 2 or st == 0:
+        gen_q("c01_digest_trunc", st, en, "C01", tiers, (900, 2400), 200 + 60 * (en - st))
+        gen_q("c01_digest_long", st, en, "C01", tiers, (900, 2400), 200 + 60 * (en - st))
 for (st, en) in [(0, 1), (0, 2), (2, 5), (26, 31), (29, 31), (30, 31), (7, 8), (12, 18)]:
-    gen_q("c03_one_item", st, en, "C03", ("quick", "thorough") if (st, en) in ((0, 2), (2, 5), (29, 31)) else ("thorough",),
-          (900, 2400), 300)
+    for kind in ("c03_one_slice", "c03_one_iter", "c03_one_addslice", "c03_one_addarray", "c03_one_addbyte"):
+        quick = ((st, en) == (2, 5)) or ((st, en) in ((0, 2), (29, 31)) and kind in ("c03_one_slice", "c03_one_iter"))
+        gen_q(kind, st, en, "C03", ("quick", "thorough") if quick else ("thorough",), (900, 2400), 400)
     for kind in ("c03_two_slice", "c03_two_iter", "c03_two_addslice", "c03_two_addarray"):
         gen_q(kind, st, en, "C03", ("thorough",), (900, 3600), 1500)
 
@@ -442,9 +451,14 @@ K("c03_finalize_is_pure", "C03", M_GEN, cfg="release", shape="inductive step", c
   unwindset=[("@memcmp.0", 70)],
   bound="clone / finalize* leave the generator bit-identical; arbitrary invariant state [2,4)",
   enc=["Generator::clone", "finalize", "finalize_without_truncation", "finalize_raw"], assumptions=ASSUME_GEN[:1])
-K("c03_hash_buf_wiring_l6", "C03", M_EASY, cfg="release", shape="BMC", cap=(900, 2400), cost=300, mem=14,
-  bound="hash_buf on a buffer of symbolic length <= 6 (concrete content) == new + hint + update + finalize",
-  enc=["generate_easy::hash_buf"])
+K("c03_hash_buf_wiring_l6", "C03", M_EASY, cfg="release", shape="BMC", cap=(900, 2400), cost=100, mem=12, stubbing=True,
+  unwindset=[(r"generate::Generator::update", 8)],
+  bound="hash_buf on every buffer of <= 6 bytes: declares exactly the length before feeding, one update with exactly the buffer, "
+        "returns what finalize returns",
+  enc=["generate_easy::hash_buf"],
+  assumptions=["Generator::set_fixed_input_size_in_usize / update / finalize replaced by a recording model (Kani stubbing)"])
+K("c03_hash_buf_real_tiny", "C03", M_EASY, cfg="release", shape="BMC", cap=(900, 2400), cost=200, mem=12,
+  bound="the real hash_buf on the empty buffer and on one concrete byte", enc=["generate_easy::hash_buf", "Generator::*"])
 K("c12_new_and_reset", "C12", M_GEN, cfg="release", shape="inductive step", cap=(600, 1200), cost=100,
   bound="reset() from a COMPLETELY arbitrary generator (no invariant assumed)",
   enc=["Generator::reset", "Generator::new"])
@@ -476,17 +490,22 @@ for (st, en) in [(26, 31), (29, 31), (30, 31), (24, 31)]:
         q = gen_q(kind, st, en, "C13", ("quick", "thorough") if quick else ("thorough",), (900, 1800), 300)
         q.name = "c13_" + q.name
 PROP_META["C18"] = {
-    "technique": "Kani/CBMC BMC of hash_stream_common with a nondeterministic Read implementation (arbitrary "
-                 "short reads, arbitrary error kind at an arbitrary read)",
+    "technique": "Kani/CBMC BMC of hash_stream_common with a scripted nondeterministic Read implementation (arbitrary "
+                 "short reads, arbitrary error kind at an arbitrary read) and a recording model of the generator (stubbing)",
     "assumptions": ["Read contract: Ok(n) with 1 <= n <= buf.len() while data remains, Ok(0) only at the end; stream <= 6 bytes",
                     "hash_file's File::open / metadata (operating-system I/O) are outside this technique"],
 }
 for nm in ("c18_stream_no_hint", "c18_stream_with_hint"):
-    K(nm, "C18", M_STD, cfg="release", shape="BMC", cap=(900, 2400), cost=600, mem=14,
-      bound="a stream of symbolic length <= 6 (concrete content) delivered in arbitrary chunks of 1..=2 bytes (<= 7 reads), "
-            "failing with an arbitrary error kind (4 kinds) at an arbitrary read or never; arbitrary size hint <= 8",
-      outside="reads longer than 2 bytes (32 KiB buffer boundary); hash_file's OS half",
-      enc=["generate_easy_std::hash_stream_common", "Generator::update", "Generator::finalize"])
+    K(nm, "C18", M_STD, cfg="release", shape="BMC", cap=(900, 2400), cost=300, mem=12, stubbing=True,
+      unwindset=[(r"hash_stream_common", 10), (r"Generator::update$|Generator>::update$|generate::Generator::update", 5)],
+      bound="a symbolic stream of <= 6 bytes delivered in arbitrary chunks of 1..=3 bytes (<= 7 reads), failing with an "
+            "arbitrary error kind (4 kinds) at an arbitrary read or never; arbitrary declared size <= 8",
+      outside="reads longer than 3 bytes (32 KiB buffer boundary); hash_file's OS half; the generator itself (stubbed: C01/C03)",
+      enc=["generate_easy_std::hash_stream_common", "GeneratorOrIOError: From<io::Error>, From<GeneratorError>"],
+      assumptions=["Generator::update / Generator::finalize replaced by a recording model (Kani stubbing): update appends "
+                   "to a log, finalize spells out the log or reports FixedSizeMismatch against the declared size"])
+K("c18_hash_stream_empty_real", "C18", M_STD, cfg="release", shape="BMC", cap=(900, 2400), cost=200, mem=12,
+  bound="hash_stream (real generator, no stubs) on the empty stream", enc=["generate_easy_std::hash_stream", "hash_stream_common"])
 PROP_META["C19"] = {
     "technique": "Kani/CBMC full-domain query for the FNV step (all 2^32 states x 256 bytes); SMT (z3+cvc5) "
                  "inductive step of the rolling hash extracted from MIR; Kani BMC for the update forms",
